@@ -9,13 +9,14 @@ import (
 // Scenario: one generated MiniXGo program (its functions carry a unique suffix, the entry function
 // X<suffix> has no parameters/results and reports everything through probe calls).
 type Scenario struct {
-	Name     string
-	Kind     string // what the scenario exercises (also the prefix of oracle keys)
-	Prog     *Prog
-	NoOracle bool   // behaviour outside the property's reading: compared with the model only
-	XGoExtra string // XGo-only declarations (overload sets): no counterpart in the model, calls are resolved
-	Probe    bool   // accept/reject probe: case line `minic`, oracle keys prefixed with Note
-	Note     string
+	Name      string
+	Kind      string // what the scenario exercises (also the prefix of oracle keys)
+	Prog      *Prog
+	NoOracle  bool   // behaviour outside the property's reading: compared with the model only
+	MinParens bool   // surface syntax of the XGo text: minimal parentheses (documented precedence) or full
+	XGoExtra  string // XGo-only declarations (overload sets): no counterpart in the model, calls are resolved
+	Probe     bool   // accept/reject probe: case line `minic`, oracle keys prefixed with Note
+	Note      string
 }
 
 type G struct {
@@ -55,7 +56,7 @@ func isConst(e *Expr) bool {
 	switch e.K {
 	case "int", "bool", "str":
 		return true
-	case "bin", "not":
+	case "bin", "not", "neg":
 		for _, a := range e.Args {
 			if !isConst(a) {
 				return false
@@ -67,7 +68,7 @@ func isConst(e *Expr) bool {
 }
 
 func (g *G) nc(e *Expr) *Expr {
-	if (e.K == "bin" || e.K == "not") && isConst(e) {
+	if (e.K == "bin" || e.K == "not" || e.K == "neg") && isConst(e) {
 		e.Args[0] = Probe(g.id(), e.Args[0])
 	}
 	return e
@@ -348,7 +349,8 @@ func (g *G) finish(kind string, body []*Stmt) *Scenario {
 		body = append(body, ExprS(Probe(g.id(), Var(l.Name))))
 	}
 	entry := &Func{Name: "X" + g.sfx, Body: body}
-	return &Scenario{Name: g.sfx, Kind: kind, Prog: &Prog{Entry: entry.Name, Funcs: append(g.funcs, entry)}}
+	return &Scenario{Name: g.sfx, Kind: kind, MinParens: g.r.Chance(60),
+		Prog: &Prog{Entry: entry.Name, Funcs: append(g.funcs, entry)}}
 }
 
 func (g *G) local(name string, t *Ty) { g.locals = append(g.locals, Param{name, t}) }
